@@ -917,6 +917,59 @@ def extra_state_probe(res):
         res.count("oracle:clones-keep-state-beside-the-fields", 18)
 
 
+# ---- a decoration that ends in an exception raised by the NOTICE (warnings turned into errors: -W error, pytest's filterwarnings):
+# like every other failed decoration it may leave nothing behind -- the same name decorates normally afterwards
+def _warn_child(_job):
+    import dataclasses
+    import sys
+    import types
+    import warnings
+    from typelib.py import classes
+    mod = types.ModuleType("vm_c19_warn")
+    sys.modules["vm_c19_warn"] = mod
+    bad = []
+
+    def make():
+        exec("import dataclasses\n@dataclasses.dataclass\nclass Point:\n    x: int = 0\n    y: int = 0\n"
+             "class Outer:\n    @dataclasses.dataclass\n    class Point:\n        x: int = 0\n", mod.__dict__)
+        return mod.Point, mod.Outer.Point
+    for flags in ({}, {"weakref": False}, {"dict": True, "weakref": False}, {"dict": True, "weakref": True}):
+        for which in (0, 1):
+            first = "no exception"
+            with warnings.catch_warnings():
+                warnings.simplefilter("error")
+                try:
+                    classes.slotted(**flags)(make()[which])
+                except Warning as e:
+                    first = type(e).__name__
+                except Exception as e:  # noqa: BLE001
+                    bad.append([repr(flags), f"decoration under warnings-as-errors raised {type(e).__name__}: {e}"[:200]])
+                    continue
+            with warnings.catch_warnings():
+                warnings.simplefilter("ignore")
+                try:
+                    C = classes.slotted(**flags)(make()[which])
+                except Exception as e:  # noqa: BLE001
+                    bad.append([repr(flags), f"after a decoration that ended in {first}, decorating a class of the same name raised "
+                                             f"{type(e).__name__}: {e}"[:300]])
+                    continue
+                inst = C(1)
+                if "__slots__" not in C.__dict__ or (hasattr(inst, "__dict__") != bool(flags.get("dict"))) or inst != C(1) or inst == C(2):
+                    bad.append([repr(flags), f"after a decoration that ended in {first}, the same name decorates to a class that is not slotted as asked"])
+    return bad
+
+
+def warning_as_error_probe(res):
+    bad = iso.map_isolated(_warn_child, [None], timeout=60.0)[0]
+    if not isinstance(bad, list):
+        raise RuntimeError(f"harness: warnings-as-errors probe failed: {bad}")
+    res.case({"family": "decoration-ended-by-the-notice-as-an-error"}, True)
+    for flags, what in bad:
+        res.failures.append({"what": f"slotted({flags}): {what}", "input": {"warn_as_error": flags}})
+    if not bad:
+        res.count("oracle:a-failed-notice-leaves-nothing-behind", 8)
+
+
 def explore(ctx):
     core.import_typelib()
     res = Result()
@@ -926,12 +979,17 @@ def explore(ctx):
     outs = iso.map_isolated(real_history, jobs)
     evaluate(jobs, outs, res)
     extra_state_probe(res)
+    warning_as_error_probe(res)
     return res
 
 
 def replay(failure):
     core.import_typelib()
     inp = failure["input"]
+    if "warn_as_error" in inp:
+        bad = iso.map_isolated(_warn_child, [None], timeout=60.0)[0]
+        print(json.dumps({"failures": bad}, indent=1, default=str))
+        return bool(bad)
     if "extra_state" in inp:
         bad = iso.map_isolated(_extra_child, [None], timeout=60.0)[0]
         print(json.dumps({"clones that differ": bad}, indent=1, default=str))
